@@ -55,6 +55,12 @@ def place(rng, kind=None):
     return lat, lon, float(rng.uniform(-1, 850))
 
 
+def edge_day(rng):
+    y = int(rng.integers(2015, 2030)) if rng.random() < 0.7 else int(rng.choice([2019, 2024, 2029, 2020, 2025, 2016, 2028]))
+    m, d = [(1, 1), (12, 31), (12, 30), (1, 2), (12, 31)][int(rng.integers(5))]
+    return [y, m, d]
+
+
 def draw_date(rng, off_grid):
     if off_grid:
         return float(rng.uniform(2015.02, 2029.98))
@@ -72,6 +78,8 @@ def generate(rng, tier, shard, nshards):
             if kind == "explicit" and j > 0 and rng.random() < 0.15:
                 kind = "omitted"        # the date argument left out altogether (not the same as date=None)
             elif kind == "explicit" and j > 0 and rng.random() < 0.15:
+                kind = "calendar"       # a calendar day (datetime.date) at the edge of a year: 1 January, 30 / 31 December (leap years too), up to the last day served
+            elif kind == "explicit" and j > 0 and rng.random() < 0.15:
                 kind = "own-date"       # the object's own `date` attribute (a datetime.date) handed back as the date of the next query
             if j > 0 and rng.random() < 0.2:      # the same station again at another height (a vertical profile), or the same point again
                 lat, lon = qs[-1]["lat"], qs[-1]["lon"]
@@ -82,6 +90,8 @@ def generate(rng, tier, shard, nshards):
             if rng.random() < 0.15:     # decimal years just below a tenth / an epoch boundary
                 dd = float(rng.choice([2019.999, 2024.999, 2017.549, 2022.348, 2021.048, 2026.951, 2019.949, 2015.051]))
             qs.append({"kind": kind, "lat": lat, "lon": lon, "h": h, "date": dd})
+            if kind == "calendar":
+                qs[-1]["day"] = edge_day(rng)
             if j > 0 and i % 3 == 2 and rng.random() < 0.25:
                 # the public attribute `frame` re-assigned between two queries (a method query has no frame argument): the next answer is in that frame
                 qs[-1]["pre"] = ["set_frame", gens.spell(str(rng.choice(["NED", "ENU"])), int(rng.integers(5)))]
@@ -100,7 +110,7 @@ def generate(rng, tier, shard, nshards):
         lat, lon, h = place(rng)
         if reg == "entry:datetime":
             d = datetime.date(int(rng.integers(2015, 2030)), int(rng.integers(1, 13)), int(rng.integers(1, 29)))
-            date = [d.year, d.month, d.day]
+            date = [d.year, d.month, d.day] if i % 2 else edge_day(rng)
         else:
             date = draw_date(rng, reg == "entry:off-grid")
             if reg == "entry:off-grid" and i % 6 == 1:   # just below an epoch / tenth boundary
@@ -173,6 +183,9 @@ def check_history(case, ctx):
                 pre = call(lambda: w.get_properties(fn_))
                 if not ctx.returned(pre, clause="no-exception[get_properties() called by hand]", route=route):
                     return
+                if isinstance(pre.value, dict):          # what was handed out is the caller's: used up (entry popped / overwritten / dict emptied)
+                    from .C14 import take_apart
+                    take_apart(pre.value, len(log) + int(abs(q["lat"]) * 10))
                 log.append(("get_properties", q["pre"][1]))
             elif q.get("pre") and w is not None and q["pre"][0] == "set_frame":
                 w.frame = q["pre"][1]
@@ -190,8 +203,8 @@ def check_history(case, ctx):
             if q["kind"] == "explicit":
                 out = call(lambda: w.magnetic_field(lat, lon, h, date=q["date"]))
                 cur_date = q["date"]
-            elif q["kind"] == "own-date":
-                own = w.date
+            elif q["kind"] in ("own-date", "calendar"):
+                own = w.date if q["kind"] == "own-date" else datetime.date(*q["day"])
 
                 def fresh_same_day():
                     f = WMM(frame=frame)
@@ -201,7 +214,7 @@ def check_history(case, ctx):
                 fr = call(fresh_same_day)
                 if out.ok and ctx.returned(fr, clause="no-exception[own date, fresh object]", route=route):
                     cur_date = fr.value[1]
-                    ctx.le("a query dated with the object's own `date` attribute is answered as a fresh object answers for that calendar day",
+                    ctx.le("a query dated with a calendar day (the object's own `date` attribute, or a day at the edge of a year) is answered as a fresh object answers for that day",
                            float(np.abs(np.array([w.X, w.Y, w.Z], float) - fr.value[0]).max()), 1e-9,
                            {"query_index": j, "history": log[-6:], "date": str(own), "date_dec_here": float(w.date_dec), "date_dec_fresh": fr.value[1]}, route=route)
             elif q["kind"] == "omitted":
